@@ -647,6 +647,48 @@ pub fn scenario(g: &mut Gen, k: u64) {
                     if g.rng.below(3) == 0 { g.push(Op::RemoveFromFile(hk, f)); } else { g.push(Op::AddToFile(hk, f)); }
                 }
             }
+            // copies of elements with an OWN file set: package `ra` lives only in one file, package `rb` only in another;
+            // `ra` (and an element of it) is copied below `rb` and into another model: the copy must live where its new
+            // parent lives
+            let mine: Vec<usize> = (0..g.ex.files.len()).filter(|f| g.ex.files[*f].model().ok().as_ref() == Some(&g.ex.models[0])).collect();
+            let rk = g.ex.hidx.get(&g.ex.models[0].root_element()).copied();
+            if let (true, Some(rk)) = (mine.len() >= 2, rk) {
+                if let Some(pk) = ok_h(&g.push(Op::GetOrCreate(rk, n.elidx("AR-PACKAGES")))) {
+                    let pa = ok_h(&g.push(Op::GetOrCreateNamed(pk, n.elidx("AR-PACKAGE"), b"ra".to_vec())));
+                    let pb = ok_h(&g.push(Op::GetOrCreateNamed(pk, n.elidx("AR-PACKAGE"), b"rb".to_vec())));
+                    if let (Some(pa), Some(pb)) = (pa, pb) {
+                        let inner = ok_h(&g.push(Op::GetOrCreate(pa, n.elidx("ELEMENTS")))).and_then(|ea| {
+                            let kind = *g.rng.pick(ELEMENT_KINDS);
+                            ok_h(&g.push(Op::CreateNamed(ea, n.elidx(kind), b"in_a".to_vec())))
+                        });
+                        let (fa, fb) = if g.rng.below(2) == 0 { (mine[0], mine[1]) } else { (mine[1], mine[0]) };
+                        for o in &mine {
+                            if *o != fa {
+                                g.push(Op::RemoveFromFile(pa, *o));
+                            }
+                            if *o != fb {
+                                g.push(Op::RemoveFromFile(pb, *o));
+                            }
+                        }
+                        if let Some(sub) = ok_h(&g.push(Op::GetOrCreate(pb, n.elidx("AR-PACKAGES")))) {
+                            g.push(Op::Copy(sub, pa));
+                        }
+                        if let (Some(inner), Some(eb)) = (inner, ok_h(&g.push(Op::GetOrCreate(pb, n.elidx("ELEMENTS"))))) {
+                            g.push(Op::Copy(eb, inner));
+                        }
+                        let ver = g.ex.files[fa].version() as u32;
+                        if let Some(m2) = second_model(g, ver) {
+                            let root2 = g.ex.models[m2].root_element();
+                            if let Some(r2) = g.ex.hidx.get(&root2).copied() {
+                                if let Some(pk2) = ok_h(&g.push(Op::GetOrCreate(r2, n.elidx("AR-PACKAGES")))) {
+                                    g.push(Op::Copy(pk2, pa));
+                                    g.push(Op::SerializeFile(g.ex.files.len() - 1));
+                                }
+                            }
+                        }
+                    }
+                }
+            }
             g.push(Op::Duplicate(0));
         }
     }
@@ -947,6 +989,7 @@ fn oracle_script(names: &Names, script: usize, probes: Vec<String>, ops: &[Op], 
             src_doc_problems: Option<(usize, String)>,
             dst_ctx_problems: Option<(usize, String)>,
             parent_path: Option<String>,
+            src_local: bool,
         }
         let pre_copy: Option<PreCopy> = match op {
             Op::Copy(d, s) | Op::CopyAt(d, s, _) => {
@@ -988,7 +1031,9 @@ fn oracle_script(names: &Names, script: usize, probes: Vec<String>, ops: &[Op], 
                         }
                         _ => None,
                     };
+                    let src_local = src.elements_dfs().any(|(_, e)| matches!(e.file_membership(), Ok((true, _))));
                     PreCopy {
+                        src_local,
                         src_ser,
                         src_tree: actual(&src),
                         existing: ex.hidx.keys().cloned().collect(),
@@ -1180,7 +1225,50 @@ fn oracle_script(names: &Names, script: usize, probes: Vec<String>, ops: &[Op], 
                         }
                     }
                 }
-                let _ = pc.same_model;
+                if pc.src_local {
+                    fd.count(if pc.same_model { "copies_of_restricted_source_same_model" } else { "copies_of_restricted_source_other_model" });
+                }
+                // (m) membership: a copy starts without own file sets (every node inherits from the destination), ...
+                for (_, e) in copy.elements_dfs() {
+                    fd.count("membership_checks");
+                    if let Ok((true, fs)) = e.file_membership() {
+                        let names: Vec<String> = fs.iter().filter_map(|w| w.upgrade()).map(|f| f.filename().to_string_lossy().to_string()).collect();
+                        fd.fail(script, opi, "COPY-MEMBERSHIP", format!("op=[{}] element {} of the copy has an own file set {:?} (same model: {})", op.line(), e.element_name(), names, pc.same_model));
+                        break;
+                    }
+                }
+                // ... so every file of the destination model that contains the destination parent contains the whole copy
+                if let (Some(model), Ok((_, dfiles))) = (&model, pc.dst.file_membership()) {
+                    let nodes: Vec<Element> = copy.elements_dfs().map(|(_, e)| e).collect();
+                    // line breaks and indentation depend on depth and on mixed-content context: compare without them
+                    let norm = |t: &str| t.lines().map(|l| l.trim_start()).collect::<Vec<_>>().join("");
+                    let ctext = norm(&copy.serialize());
+                    // ArxmlFile::serialize rewrites xsi:schemaLocation of the root: put back what was there
+                    let root = model.root_element();
+                    let schema_loc = root.attribute_value(AttributeName::xsiSchemalocation);
+                    for f in model.files() {
+                        if !dfiles.contains(&f.downgrade()) {
+                            continue;
+                        }
+                        let in_file: HashSet<Element> = f.elements_dfs().map(|(_, e)| e).collect();
+                        if !in_file.contains(&pc.dst) {
+                            continue; // inconsistent membership of the destination itself: C10
+                        }
+                        fd.count("copy_in_file_checks");
+                        if let Some(miss) = nodes.iter().find(|e| !in_file.contains(e)) {
+                            fd.fail(script, opi, "COPY-NOT-IN-FILE", format!("op=[{}] file {} contains the destination {} but not the copied {}", op.line(), f.filename().to_string_lossy(), pc.dst.element_name(), miss.element_name()));
+                        } else if let Ok(t) = f.serialize() {
+                            if !norm(&t).contains(&ctext) {
+                                fd.fail(script, opi, "COPY-NOT-IN-FILE-TEXT", format!("op=[{}] the text of file {} does not contain the text of the copy", op.line(), f.filename().to_string_lossy()));
+                            }
+                        }
+                    }
+                    if let Some(v) = schema_loc {
+                        if root.attribute_value(AttributeName::xsiSchemalocation).as_ref() != Some(&v) {
+                            let _ = root.set_attribute(AttributeName::xsiSchemalocation, v);
+                        }
+                    }
+                }
             }
         }
         // ---- duplicate
